@@ -571,6 +571,10 @@ def gen_c03(seed, tier):
             kw["extra_certs"] = [9 + i]           # key roll-over in progress: two signing certs published
         kw["want_authn_requests_signed"] = g.rl.chance(0.3)
         kw["only_md_keys"] = g.rl.pick([None, None, False])
+        if g.rl.chance(0.4):
+            # the IdP also publishes an encryption certificate; some federations drop the `use` attributes
+            kw["enc_keys"] = [6 + i]
+            kw["md_strip_use"] = g.rl.pick([None, None, "encryption", "all", "signing"])
         idps.append(g.add_idp(i, **kw))
     nsp = g.rl.pick([1, 2])
     sps = []
@@ -603,6 +607,9 @@ def gen_c03(seed, tier):
                 g.tick()
             if fk in ("roll", "roll-keep"):
                 g.ev("roll", idp=idp["name"], new_key=r.pick([9, 10, 11]), keep_old=(fk == "roll-keep"))
+            elif fk.startswith("misdeploy") and idp.get("enc_keys") and r.chance(0.5):
+                # the key file holds the IdP's *encryption* key: trusted only if metadata lists it use-less
+                g.ev("misdeploy", idp=idp["name"], key=idp["enc_keys"][0], cert=r.pick(["own", "other"]))
             elif fk.startswith("misdeploy"):
                 if fk == "misdeploy-member":
                     other = r.pick([x for x in idps if x is not idp])
